@@ -27,6 +27,10 @@ def run(tier):
         fams.append(("minimal", p, root, None))
     for p, root in gen_calls.vararg_after_call_cases():
         fams.append(("vaaftercall", p, root, None))
+    for p, root in gen_calls.short_return_cases():
+        fams.append(("shortret", p, root, None))
+    for p, root in gen_calls.xpcall_surplus_cases():
+        fams.append(("xpsurplus", p, root, None))
     for p, root in gen_calls.select_cases():
         fams.append(("select", p, root, None))
     # the same call shapes among many constants (operands beyond the RK range live in registers)
